@@ -235,15 +235,17 @@ def r1313_function(P, rep, rule='R13.13'):
         ctx.c13_looked = True
         return ctx.c13_prior
 
+    # every declaration of the sequence declares `int f(void)`: one Type object, so that a compatibility test of the old and the new type (t1 == t2) is decided
+    fty = Obj('Type', lazy=False, label='int(void)', fields={f: 0 for f, t, b in (u.records.get('Type') or [])})
+    fty.fields.update({'kind': E['TY_FUNC'], 'name': env.token('f'), 'name_pos': env.token('f'), 'return_ty': tint, 'params': 0, 'is_variadic': 0, 'align': 1, 'size': 1})
+
     def h_decl(it, ctx, n, args):
         if not args or not isinstance(args[0], _Ref):
             raise AnalysisBroken('declarator() is not called with the address of the token cursor')
-        ty = Obj('Type', lazy=True, label='ty')
-        ty.fields.update({'kind': E['TY_FUNC'], 'name': env.token('f'), 'name_pos': env.token('f'), 'return_ty': tint, 'params': 0, 'is_variadic': 0, 'align': 1, 'size': 1})
         args[0].place.set(it, ctx.c13_after)
-        return ty
+        return fty
     try:
-        it = env.interp(('function', 'new_gvar', 'new_var'), cut={'find_func': h_find, 'declarator': h_decl, 'compound_stmt': None},
+        it = env.interp(('function', 'new_gvar', 'new_var', 'is_compatible'), cut={'find_func': h_find, 'declarator': h_decl, 'compound_stmt': None},
                         models=env.token_models(), blocked=('create_param_lvars', 'resolve_goto_labels'), globals_={'globals': 0, 'current_fn': 0})
     except AnalysisBroken as ex:
         rep.undecided(rule, '%s:function:engine' % PU, str(ex), where=where)
@@ -257,7 +259,7 @@ def r1313_function(P, rep, rule='R13.13'):
             ctx.c13_prior = 0
             ctx.c13_looked = False
             if prior is not None:
-                ctx.c13_prior = Obj('Obj', lazy=False, label='earlier-declaration', fields=dict(prior))
+                ctx.c13_prior = Obj('Obj', lazy=False, label='earlier-declaration', fields=dict(prior, ty=fty, name='f'))
             a = Obj('VarAttr', lazy=False, label='attr', fields={f: 0 for f in afields})
             if sc:
                 a.fields[FLAG_OF[sc]] = 1
